@@ -229,8 +229,8 @@ PROPS = {
     },
     "C20": {
         "lean": ["Stackage.Props.C20"],
-        "streams": [{"name": "revealtrees", "quick": 4000, "thorough": 80000}],
-        "rule": "random trees, receiver at depth 0 and stacks down to depth 5, every kind (AND/OR/NOT/LIST/BASIC), parenthetical flags on stacks and "
+        "streams": [{"name": "revealtrees", "quick": 4000, "thorough": 280000}],
+        "rule": "thorough: exhaustive first - every tree of at most 5 nodes (leaf, nil, AND / NOT stack parenthetical or not with 0-3 children, Condition holding a leaf or a stack, parenthetical or not) under an AND receiver, 205257 trees - then random ones. random trees, receiver at depth 0 and stacks down to depth 5, every kind (AND/OR/NOT/LIST/BASIC), parenthetical flags on stacks and "
                 "Conditions, chains of 1-4 single-element wrappers (mostly removable ones), Conditions holding stacks / Conditions / leaves (also as only "
                 "element, also read-only / no-nesting / with an error, which makes SetExpression refuse), empty stacks, nil elements, zero-valued "
                 "Stack / Condition elements, nil *Stack / *Condition elements, []any elements, alias forms a/as/p on stacks and Conditions, forward/negative index options, read-only "
